@@ -9,9 +9,17 @@ import (
 	v1 "github.com/cosmos/cosmos-sdk/x/gov/types/v1"
 )
 
+// proposalQueueRange selects the queue entries ending at or before t; the zero time selects the whole queue,
+// i.e. every proposal that has not been removed from the queue yet (still open).
+func proposalQueueRange(t time.Time) collections.Ranger[collections.Pair[time.Time, uint64]] {
+	if t.IsZero() {
+		return nil
+	}
+	return collections.NewPrefixUntilPairRange[time.Time, uint64](t)
+}
+
 func (keeper Keeper) IteratorInactiveProposal(ctx sdk.Context, t time.Time, fn func(proposal v1.Proposal) (bool, error)) error {
-	rng := collections.NewPrefixUntilPairRange[time.Time, uint64](t)
-	return keeper.InactiveProposalsQueue.Walk(ctx, rng, func(key1 collections.Pair[time.Time, uint64], _ uint64) (bool, error) {
+	return keeper.InactiveProposalsQueue.Walk(ctx, proposalQueueRange(t), func(key1 collections.Pair[time.Time, uint64], _ uint64) (bool, error) {
 		proposal, err := keeper.Proposals.Get(ctx, key1.K2())
 		if err != nil {
 			return false, err
@@ -21,8 +29,7 @@ func (keeper Keeper) IteratorInactiveProposal(ctx sdk.Context, t time.Time, fn f
 }
 
 func (keeper Keeper) IteratorActiveProposal(ctx sdk.Context, t time.Time, fn func(proposal v1.Proposal) (bool, error)) error {
-	rngT := collections.NewPrefixUntilPairRange[time.Time, uint64](t)
-	return keeper.ActiveProposalsQueue.Walk(ctx, rngT, func(key collections.Pair[time.Time, uint64], _ uint64) (bool, error) {
+	return keeper.ActiveProposalsQueue.Walk(ctx, proposalQueueRange(t), func(key collections.Pair[time.Time, uint64], _ uint64) (bool, error) {
 		proposal, err := keeper.Proposals.Get(ctx, key.K2())
 		if err != nil {
 			return false, err
